@@ -41,7 +41,14 @@ Proof.
   destruct (utf8_roundtrip_all c H rest) as (_ & L & E). rewrite L, E. reflexivity.
 Qed.
 
-Lemma decode_at_app pre l : decode_at (pre ++ l) (length pre) = decode_at l 0.
+(** the clamp of string-set! does nothing when the announced sequence fits into the string *)
+Lemma clamp_old_len_noop n avail : (n <= avail)%nat -> clamp_old_len n avail = n.
+Proof. intros H. unfold clamp_old_len. destruct (avail <? n)%nat eqn:E; [apply Nat.ltb_lt in E; lia|reflexivity]. Qed.
+
+Lemma clamp_old_len_cut n avail : (avail < n)%nat -> clamp_old_len n avail = avail.
+Proof. intros H. unfold clamp_old_len. destruct (avail <? n)%nat eqn:E; [reflexivity|apply Nat.ltb_ge in E; lia]. Qed.
+
+Lemma decode_at_app pre l rem : decode_at (pre ++ l) (length pre) rem = decode_at l 0 rem.
 Proof.
   unfold decode_at. rewrite !byte_at_app. rewrite byte_at_app0. reflexivity.
 Qed.
@@ -180,8 +187,13 @@ Proof.
       rewrite Es at 1. rewrite enc_all_app, enc_all_cons, <- !app_assoc, decode_at_app.
       assert (Hc : cp (nth (Z.to_nat i) cs 0))
         by (apply Forall_forall with (l := cs); [exact Hcp|apply nth_In; exact Hi]).
-      destruct (utf8_roundtrip_all _ Hc (enc_all (skipn (S (Z.to_nat i)) cs) ++ post)) as (D & _).
-      rewrite D. reflexivity.
+      destruct (utf8_roundtrip_all _ Hc (enc_all (skipn (S (Z.to_nat i)) cs) ++ post)) as (D & _ & W).
+      rewrite D; [reflexivity|].
+      (* the whole encoding of character i lies inside the string: remaining >= its width *)
+      assert (HL : length (enc_all cs) = Nat.add (length (enc_all (firstn (Z.to_nat i) cs)))
+                (Nat.add (length (encode (nth (Z.to_nat i) cs 0))) (length (enc_all (skipn (S (Z.to_nat i)) cs)))))
+        by (rewrite Es at 1; rewrite enc_all_app, enc_all_cons, !app_length; reflexivity).
+      unfold remaining. rewrite Hsz, <- W. lia.
     + assert (Hi : Z.to_nat i = length cs) by lia.
       rewrite Hi, firstn_all.
       assert (E : (ssize s <=? length (enc_all cs))%nat = true) by (apply Nat.leb_le; lia).
@@ -233,6 +245,8 @@ Proof.
   subst r. unfold utf8_set.
   rewrite (encode_char_width c Hc).
   rewrite Hd. rewrite (lead_at (enc_all a) x (enc_all b ++ t :: post') Hx).
+  rewrite (clamp_old_len_noop (length (encode x)) (ssize s - length (enc_all a)))
+    by (rewrite Hsz, !app_length; lia).
   rewrite <- (encode_length c Hc), <- (encode_length x Hx).
   set (la := length (enc_all a)). set (lx := length (encode x)). set (lc := length (encode c)).
   set (lb := length (enc_all b)).
